@@ -1,6 +1,7 @@
 package webrtc
 
 import (
+	"bytes"
 	"crypto/ecdsa"
 	"crypto/elliptic"
 	crand "crypto/rand"
@@ -44,12 +45,23 @@ func c39Clone(c Configuration) Configuration {
 	return out
 }
 
+// c39SameCert is the monitor's own notion of "the same certificate": identical DER of the x509 certificate (a PEM clone is
+// the same certificate, a renewed certificate over the same key is another one). It deliberately does not call
+// Certificate.Equals, which SetConfiguration itself relies on.
+func c39SameCert(a, b Certificate) bool {
+	if a.x509Cert == nil || b.x509Cert == nil {
+		return a.x509Cert == b.x509Cert
+	}
+
+	return bytes.Equal(a.x509Cert.Raw, b.x509Cert.Raw)
+}
+
 func c39CertsSame(a, b []Certificate) bool {
 	if len(a) != len(b) {
 		return false
 	}
 	for i := range a {
-		if !a[i].Equals(b[i]) {
+		if !c39SameCert(a[i], b[i]) {
 			return false
 		}
 	}
@@ -147,7 +159,7 @@ func c39NewPool() (*c39Pool, error) {
 
 func (p *c39Pool) index(c Certificate) int {
 	for i := range p.certs {
-		if p.certs[i].Equals(c) {
+		if c39SameCert(p.certs[i], c) {
 			return i
 		}
 	}
@@ -325,7 +337,7 @@ func c39MakeCall(r *kit.Rand, cur Configuration, hasLocal bool, pool *c39Pool) c
 		for _, i := range r.Perm(len(pool.certs)) {
 			used := false
 			for _, c := range cur.Certificates {
-				if c.Equals(pool.certs[i]) {
+				if c39SameCert(c, pool.certs[i]) {
 					used = true
 				}
 			}
@@ -381,7 +393,7 @@ func c39MakeCall(r *kit.Rand, cur Configuration, hasLocal bool, pool *c39Pool) c
 			ch = "zero-nil"
 		}
 	case "reordered":
-		if n >= 2 && !cur.Certificates[0].Equals(cur.Certificates[n-1]) {
+		if n >= 2 && !c39SameCert(cur.Certificates[0], cur.Certificates[n-1]) {
 			a.Certificates = append([]Certificate(nil), cur.Certificates...)
 			a.Certificates[0], a.Certificates[n-1] = a.Certificates[n-1], a.Certificates[0]
 			call.eitherCerts = true
